@@ -113,6 +113,7 @@ class CtlRLock:
     self.release()
 
   def locked(self):
+    self.s.point('locked', self.name)
     return self.owner is not None
 
   # Condition support
@@ -123,6 +124,29 @@ class CtlRLock:
 
   def _acquire_restore(self, st):
     self.owner, self.count = st
+
+
+class CtlLock(CtlRLock):
+  """threading.Lock work-alike: not re-entrant, not owned (any thread may release it)."""
+
+  def acquire(self, blocking=True, timeout=-1):
+    me = self.s.me()
+    if not blocking:
+      self.s.point('tryacq', self.name)
+      if self.owner is None:
+        self.owner, self.count = me, 1
+        return True
+      return False
+    self.s.point('acq', self.name, can_proceed=lambda: self.owner is None)
+    self.owner, self.count = me, 1
+    return True
+
+  def release(self):
+    if self.owner is None:
+      raise RuntimeError('release unlocked lock')
+    self.owner, self.count = None, 0
+
+  __enter__ = acquire
 
 
 class CtlCondition(CtlRLock):
@@ -248,6 +272,8 @@ def stop_key(enc, sysm, tid, pc):
     e, dst = ins['e'], ins['dst']
     if isinstance(e, tuple) and e[0] == 'qempty':
       return ('qempty', e[1], ins['line'])
+    if isinstance(e, tuple) and e[0] == 'locked':
+      return ('locked', e[1], ins['line'])
     if dst[0] == 'g':
       return ('wr', f'{dst[1]}.{enc.canon(("g", dst[1], dst[2]))[2]}', ins['line'])
     if isinstance(e, tuple) and e[0] == 'g':
@@ -283,6 +309,13 @@ def run_schedule(sysm, enc, trace, make_threads, run_after=True, settle_s=2.0):
       expected[names[tid]].append(key)
     if st['op'] == 'wake':
       timeouts[names[tid]].append(bool(st.get('timeout_fired')))
+  # where the model leaves every unfinished thread after the last step is a stop as well
+  for tid, n in enumerate(names):
+    fin = (trace.get('final') or {}).get(n)
+    if fin and not fin.get('halted') and tid in seen_first:
+      k = stop_key(enc, sysm, tid, fin['pc'])
+      if k[0] != 'start' and (tid, fin['pc']) not in getattr(enc, 'loop_pps', ()):
+        expected[n].append(k)
   sched = Sched(expected, timeouts)
   fns = make_threads(sched)
   threads = {}
